@@ -187,6 +187,30 @@ def run(ctx):
         r5.ok("frame", "%d option-on paths outside the feature's situations equal the option-off rules" % n_frame)
     r5.floor(1, "frame")
 
+    # ---------------- R6 re-dispatch terminates
+    r6 = chk.rule("C14.R6", "the processor re-dispatches itself only after the pending sign has been cleared",
+                  "typing never hangs: the re-dispatch cannot take the same branch again")
+    n_rec = 0
+    for s in feas:
+        if not any(e[0] == "recurse" for e in s.effects):
+            continue
+        n_rec += 1
+        idx = [i for i, e in enumerate(s.effects) if e[0] == "recurse"][0]
+        before = s.effects[:idx]
+        cleared = any(e == ("pending", None) for e in before) and not any(e[0] == "pending" and e[1] is not None for e in before[max(i for i, e in enumerate(before) if e == ("pending", None)):]) \
+            if any(e == ("pending", None) for e in before) else False
+        under_pending = s.val(("pending_some",)) is True
+        sig = c12._signature(s)[:140]
+        if not (cleared and under_pending):
+            r6.violation("recurse:" + sig, "the processor calls itself with the pending sign %s — the callee takes the same branch again (unbounded recursion)"
+                         % ("still set" if not cleared else "not known to be set"), site_of(b, s.path[-2][0]))
+            break
+    if n_rec and not r6.instances:
+        r6.ok("recurse", "%d re-dispatching paths, each clears the pending sign first and is reached only with one present" % n_rec)
+    elif n_rec == 0:
+        r6.ok("recurse", "no re-dispatch")
+    r6.floor(1, "recurse")
+
     # ---------------- R3 not shown / session / one back-space
     r3 = chk.rule("C14.R3", "the pending sign is never rendered, counts as session, and is discarded by one back-space without a pop",
                   "a sign waiting for its consonant is not shown, counts as an ongoing session, and is discarded by one backspace")
@@ -247,8 +271,17 @@ def run(ctx):
                 r3.ok(key, "pending sign discarded, composed text untouched")
             else:
                 r3.violation(key, "back-space with a pending sign %s" % ("also pops the composed text" if popped else "does not discard it"), common.fn_line(prog, bs))
+        # no pending sign survives any back-space
+        for p in paths:
+            st = p["state"].get(pend)
+            key = "after-backspace@%s" % "/".join(c06._cond_sig(bb_, p))
+            if st == "E":
+                r3.ok(key, "pending sign is None at this exit")
+            else:
+                r3.violation(key, "this back-space exit can leave a pending sign behind (state %s) — it is not discarded by one back-space" % (st or "unknown"),
+                             common.fn_line(prog, bs))
         if n == 0:
             r3.violation("backspace", "no back-space path handles a pending sign", common.fn_line(prog, bs))
     except PathLimit as e:
         r3.undecidable("backspace", str(e))
-    r3.floor(4, "not-shown, session, ≥2 back-space paths")
+    r3.floor(6, "not-shown, session, ≥2 back-space paths with a pending sign, exits")
